@@ -8,7 +8,7 @@ from numbers import Number
 
 import numpy as np
 import rowan
-from scipy.spatial import ConvexHull
+from scipy.spatial import ConvexHull, QhullError
 
 from .polyhedron import Polyhedron
 from .sphere import Sphere
@@ -90,7 +90,14 @@ class ConvexPolyhedron(Polyhedron):
     def __init__(self, vertices):
         self._vertices = np.array(vertices, dtype=np.float64)
         self._ndim = self._vertices.shape[1]
-        hull = ConvexHull(self._vertices)
+        try:
+            hull = ConvexHull(self._vertices)
+        except QhullError as error:
+            # Too few points, points that do not span three dimensions, or non-finite
+            # coordinates: not a valid set of vertices for a convex polyhedron.
+            raise ValueError(
+                "Input vertices do not define a three-dimensional convex polyhedron."
+            ) from error
         self._faces_are_convex = True
 
         if not len(hull.vertices) == len(self._vertices):
